@@ -440,6 +440,53 @@ func rulePresence(r *Report) {
 	}
 }
 
+// ruleAggregatesReadOnly (C04.readonly): Sum/Avg/Min/Max fold the selection, they do not change it.
+// The per-block callback receives a slice of Txn.index; nothing reachable from it (helpers
+// included, their parameters bound to the arguments) may call a mutating Bitmap method on that
+// slice or store into its words — intersecting with the presence bitmap must happen on a copy.
+func ruleAggregatesReadOnly(r *Report) {
+	h := r.Rule("C04.readonly", "def-use", "aggregates (Sum, Avg, Min, Max) leave the transaction's selection unchanged: no mutating bitmap call on, and no store into, the selection slice handed to their per-block callback (helpers inlined)", 4)
+	for _, agg := range []string{"Sum", "Avg", "Min", "Max"} {
+		name := "(column.rdNumber[T])." + agg
+		fn := r.Anchor(name)
+		if fn == nil {
+			continue
+		}
+		bad := ""
+		n := 0
+		for _, c := range callsToDeep(fn, false, "(*column.Txn).rangeRead") {
+			cc, _, _ := callCommon(c.Inner)
+			body := asFunc(cc.Args[1])
+			if body == nil || len(body.Params) < 2 {
+				continue
+			}
+			n++
+			sel := ssa.Value(body.Params[len(body.Params)-1])
+			deepVisitE(body, func(ins, _ ssa.Instruction, env *venv) {
+				if call, _, _ := callCommon(ins); call != nil {
+					sc := call.StaticCallee()
+					if sc == nil || sc.Signature.Recv() == nil || !isBitmap(sc.Signature.Recv().Type()) || !bitmapMutators[baseName(sc)] {
+						return
+					}
+					recv, _ := normE(bitmapRecv(call.Args[0]), env, false)
+					if sameExpr(recv, sel) || isLoadOf(recv, sel) {
+						bad = fmt.Sprintf("%s calls Bitmap.%s on the selection slice", r.P.InstrPos(ins), baseName(sc))
+					}
+					return
+				}
+				if st, isSt := ins.(*ssa.Store); isSt {
+					if ia, isIA := st.Addr.(*ssa.IndexAddr); isIA && isBitmap(ia.X.Type()) {
+						if x, _ := normE(ia.X, env, false); sameExpr(x, sel) {
+							bad = fmt.Sprintf("%s stores into the selection slice", r.P.InstrPos(ins))
+						}
+					}
+				}
+			})
+		}
+		h.Check(bad == "" && n > 0, name, r.P.Pos(fn.Pos()), "selection only read", "the aggregate modifies the transaction's selection ("+bad+"): Count, Range and every later aggregate of the same transaction lose the selected rows that hold no value in this column")
+	}
+}
+
 // selectionUnderPresence: the bitmap handed to a fold derives from the column's presence bitmap
 // (e.g. present(index, fill)), or was intersected with it beforehand.
 func selectionUnderPresence(f *ssa.Function, at ssa.Instruction, sel ssa.Value) bool {
